@@ -138,4 +138,39 @@ CLAIMS = {
         note='Whole statement of C13 given R-TABLES for the table contents (the packed GF(2^4) table identity is applied by the analysis). '
              'Unaligned 64-bit accesses are a platform matter. A kernel the interpreter cannot follow gives ANALYSIS-BROKEN. ' + BASE,
         technique='abstract interpretation over IR with a byte-provenance domain + quasi-affine periodicity argument'),
+    'C03': dict(
+        text='Mechanism only: the bulk submission API is n per-symbol submissions; every OK path of the ML routine passes, in order, '
+             'the injection of all k source and all n-k repair slots, the system simplification, the dense conversion, the solver and '
+             'the write-back of all k slots; status agrees with completion; the solver keeps right-hand sides with rows and starts from '
+             'an empty scratch list.',
+        design_ref='DESIGN.md section 6 C03; rules R-SETAVAIL, R-ML-PIPELINE, R-FINISH-TRUTH, R-PAIRSWAP, R-SCRATCH-RESET',
+        note='First sentence: mechanism only. "Succeeds iff uniquely determined" is a rank condition with no structural clause; it is '
+             'NOT claimed. ' + BASE,
+        technique='must-pass-through ordering over the CFG, loop-range rules, dominance'),
+    'C06': dict(
+        text='The fields both RS codecs compute in are the documented ones (precondition of codec 1 / codec 2 byte compatibility); '
+             'encoders never write a source buffer; a NULL output slot is replaced by a library allocation before use; the output is '
+             'zeroed and exactly the k scaled sources (RS) / the other entries of the equation (LDPC) are accumulated; k <= esi < n; the '
+             'accumulation kernels are exact (kernel extent analysis).',
+        design_ref='DESIGN.md section 6 C06; rules R-TABLES, R-POLY, R-RO-FLOW, R-NULLSLOT, R-ENC-LOOP, R-APIGUARD, R-DISPATCH, R-KEA',
+        note='Does NOT decide the generator coefficients (that RS repair symbols are the Vandermonde-systematic ones). ' + BASE,
+        technique='constant-data comparison, write-sink flow analysis with callee summaries, dominance, loop-range rules, KEA'),
+    'C07': dict(
+        text='Argument guards dominate every table access; no write sink (libc writers, kernels, writing callees by summary) targets a '
+             'received symbol or encoder source (RS decoding provably works on private copies); NULL output slots are filled first; '
+             'guarded indices are strict and against the allocated extent (registry from allocation sites); no use after free / dangling '
+             'member / stale free list; control-block layouts match the generic views; the kernels touch exactly [0, size).',
+        design_ref='DESIGN.md section 6 C07; rules R-APIGUARD, R-RO-FLOW, R-NULLSLOT, R-IDX-GUARD, R-UAF, R-DANGLING, R-FREELIST, R-LAYOUT, R-SRCPTR, R-KEA',
+        note='Does NOT decide bounds of accesses whose index is read out of the sparse matrix or an index table, heap layout, alignment '
+             'traps. ' + BASE,
+        technique='guard/dominance rules, flow of written pointers with callee summaries, typestate walks, extent registry, KEA'),
+    'C16': dict(
+        text='For codec 5: layout agreement with the linear-binary view, dispatch, guards, bulk submission = per-symbol submissions '
+             '(sources first), completion scan, duplicate suppression, table-store classification, NULL-slot contract, encoder '
+             'accumulation, read-only sources, release completeness, and the mixed-radix rule showing that row checks and column checks '
+             'of the generated matrix each cover every source symbol exactly once.',
+        design_ref='DESIGN.md section 6 C16; rules R-LAYOUT, R-DISPATCH, R-APIGUARD, R-SETAVAIL, R-COMPLETE, R-DUP, R-SRCSTORE, R-SRCPTR, R-NULLSLOT, R-ENC-LOOP, R-RO-FLOW, R-2D-RADIX, R-OWN-FIELD, R-OWN-ELEM',
+        note='Does NOT decide completeness of erasure recovery nor that the factorisation search accepts exactly the right (k, n-k). Five '
+             'defects of this codec were repaired (see known_findings.json "fixed"). ' + BASE,
+        technique='layout comparison, dominance, loop-range and affine-stride (mixed radix) rules, ownership analysis'),
 }
